@@ -25,4 +25,6 @@ func facts() {
 	skeletonFact("skel_groupcache_ValidateGroupMembership", []string{"C17"}, "internal/auth/providers/group_cache.go", "GroupCache", "ValidateGroupMembership")
 	skeletonFact("skel_google_ValidateGroupMembership", []string{"C17"}, "internal/auth/providers/google.go", "GoogleProvider", "ValidateGroupMembership")
 	skeletonFact("skel_cognito_ValidateGroupMembership", []string{"C17"}, "internal/auth/providers/amazon_cognito.go", "AmazonCognitoProvider", "ValidateGroupMembership")
+
+	statusSetFact("unavailableStatuses", []string{"C05", "C04"}, "internal/proxy/providers/sso.go", "isProviderUnavailable")
 }
